@@ -101,7 +101,16 @@ func judgeFinal(c *Case, ex *Expectation, root string, before map[string]Node, c
 		}
 		return v("unexpected-file", fmt.Sprintf("%s was created but is no destination of this invocation", p))
 	}
+	stale := map[string]bool{}
+	for _, e := range c.Tree.Entries {
+		if e.StaleBak {
+			stale[e.Path] = true
+		}
+	}
 	for _, p := range paths(before) {
+		if stale[p] {
+			continue // a file in the way of the command's own backup name: not judged (see Entry.StaleBak)
+		}
 		if allowed[p] {
 			// a destination (or one of its parent directories) that existed before
 			continue
@@ -170,6 +179,9 @@ func C19Case(r *Runner, base string, tape *sim.Tape) *Outcome {
 		if nthMode == 0 {
 			nthMode = 1
 		}
+	}
+	if c.Inv.StaleBaks > 0 {
+		out.stat("scenarios_with_a_file_already_named_like_the_backup", 1)
 	}
 	ex := c.Inv.Expect(c.Tree)
 	out.stat("shape_"+c.Shape, 1)
